@@ -64,6 +64,7 @@ Fixpoint lay (fuel : nat) (n : tnode) : Prop :=
     | NEach _ _ body els => Forall (lay f) body /\ ol els
     | NFor _ _ _ body els => Forall (lay f) body /\ ol els
     | NReserve name rid blk arg => blk = None /\ arg = None /\ rn rid = Some name
+    | NComponent _ _ _ _ | NSlot _ _ => False      (* component uses inside the layout: outside this theorem *)
     | _ => True
     end
   end.
@@ -74,7 +75,7 @@ Proof.
   induction f as [|f IH]; intros n H; [destruct H|].
   assert (IHl : forall l, Forall (lay f) l -> Forall (lay (S f)) l).
   { intros l Hl. apply (Forall_impl _ IH Hl). }
-  destruct n; try exact I.
+  destruct n; try exact I; try (destruct H; fail).
   - destruct H as (Ht & He & Ho). split; [exact (IHl _ Ht)|]. split.
     + apply (Forall_impl _ (fun cb (Hb : Forall (lay f) (snd cb)) => IHl _ Hb) He).
     + destruct els as [b|]; [exact (IHl _ Ho)|exact I].
@@ -109,7 +110,7 @@ Proof.
             match match o with Some b => Some (map fill b) | None => None end with
             | Some b => Some (map strip_s (map cnode b)) | None => None end).
   { intros [b|] Ho; [rewrite (IHl b Ho)|]; reflexivity. }
-  destruct n; cbn [lay] in L; cbn [cnode fill strip_s rw_stmt]; try reflexivity.
+  destruct n; cbn [lay] in L; try contradiction; cbn [cnode fill strip_s rw_stmt]; try reflexivity.
   - (* @if *)
     destruct L as (Lt & Le & Lo). rewrite (IHl thn Lt). f_equal.
     + rewrite !map_map. apply map_ext_in. intros [c' b] Hb. cbn [fst snd]. f_equal.
@@ -135,7 +136,7 @@ Proof.
   assert (IHl : forall l, Forall (lay f) l -> nodes_ok l -> nodes_ok (map fill l)).
   { induction l as [|x l IHl]; intros Hl Hk; [exact I|]. inversion Hl; subst. destruct Hk as [Hx Hk].
     split; [apply IH; assumption|apply IHl; assumption]. }
-  destruct n; cbn [lay] in L; cbn [fill]; try exact Hok.
+  destruct n; cbn [lay] in L; try contradiction; cbn [fill]; try exact Hok.
   - destruct L as (Lt & Le & Lo). cbn [node_ok] in Hok |- *. destruct Hok as (Hc & Ht & Helifs & Hels).
     split; [exact Hc|]. split; [exact (IHl thn Lt Ht)|]. split.
     + clear Ht Hels Lt Lo. induction elifs as [|[c' b] elifs IHe]; [exact I|].
@@ -178,14 +179,7 @@ Proof.
   - rewrite IHl. f_equal. destruct alt as [b|]; [rewrite IHl|]; reflexivity.
   - destruct (ri rid) as [[[iln arg] body]|]; reflexivity.
   - f_equal. destruct body as [b|]; [rewrite IHl|]; reflexivity.
-  - assert (Hs : map (fun sl : nat * bytes * list stmt => match sl with (_, nm, b) => (O, nm, map strip_s b) end)
-                   (map (fun sl : nat * bytes * list stmt => match sl with (sln, sn, b) => (sln, sn, map (rw_stmt cb ri f) b) end) slots) =
-                 map (fun sl : nat * bytes * list stmt => match sl with (sln, sn, b) =>
-                        (sln, sn, map (rw_stmt (fun c => match cb c with Some b => Some (map strip_s b) | None => None end)
-                                               (fun r => match ri r with Some x => Some (strip_ins x) | None => None end) f) b) end)
-                   (map (fun sl : nat * bytes * list stmt => match sl with (_, nm, b) => (O, nm, map strip_s b) end) slots)).
-    { rewrite !map_map. apply map_ext. intros [[sln sn] b]. rewrite IHl. reflexivity. }
-    destruct (cb cid) as [b|]; cbn [strip_s]; rewrite Hs; reflexivity.
+  - destruct (cb cid) as [b|]; reflexivity.
   - f_equal. destruct body as [b|]; [rewrite IHl|]; reflexivity.
 Qed.
 
